@@ -27,7 +27,7 @@ import (
 func VerifC04_PassOpensCapacityOnlyWhenNeeded() {
 	w := pwNew(&opopts.Options{})
 	w.addPool("pool-1", 0)
-	offers := []pwOffer{{"zone-1", v1.CapacityTypeOnDemand, 1, true}}
+	offers := []pwOffer{{zone: "zone-1", ct: v1.CapacityTypeOnDemand, price: 1, available: true}}
 	w.addType("it-m", resource.MustParse("4"), offers)
 	w.addType("it-l", resource.MustParse("16"), offers)
 
